@@ -28,21 +28,21 @@ Lemma cnt_set_nth f l i p p' :
   nth_error l i = Some p -> cnt f (set_nth l i p') = cnt f l - b2z (f p) + b2z (f p').
 Proof.
   revert i; induction l as [|a l IH]; intros [|i] H; cbn in *; try discriminate.
-  - injection H as ->. lia.
+  - injection H as E. subst a. lia.
   - rewrite (IH _ H). lia.
 Qed.
 
 Lemma cnt_zero_nth f l i p : cnt f l = 0 -> nth_error l i = Some p -> f p = false.
 Proof.
-  revert i; induction l as [|a l IH]; intros [|i] Z H; cbn in *; try discriminate.
-  - injection H as ->. pose proof (cnt_nonneg f l). destruct (f p); cbn in Z; [lia | reflexivity].
-  - pose proof (cnt_nonneg f l). pose proof (b2z_range (f a)). eapply IH; [lia | exact H].
+  revert i; induction l as [|a l IH]; intros [|i] Hz H; cbn in *; try discriminate.
+  - injection H as E. subst a. pose proof (cnt_nonneg f l) as Q. destruct (f p); [cbn [b2z] in Hz; lia | reflexivity].
+  - pose proof (cnt_nonneg f l) as Q. pose proof (b2z_range (f a)) as R. eapply IH; [lia | exact H].
 Qed.
 
 Lemma cnt_pos_nth f l i p : nth_error l i = Some p -> f p = true -> 1 <= cnt f l.
 Proof.
   revert i; induction l as [|a l IH]; intros [|i] H F; cbn in *; try discriminate.
-  - injection H as ->. rewrite F. pose proof (cnt_nonneg f l). cbn. lia.
+  - injection H as E. subst a. rewrite F. pose proof (cnt_nonneg f l). cbn [b2z]. lia.
   - pose proof (b2z_range (f a)). specialize (IH _ H F). lia.
 Qed.
 
@@ -57,9 +57,9 @@ Lemma step_shape s t ch s' ch' site :
   (exists i, t = S (S i) /\ step_pool s i = Some (s', site)).
 Proof.
   unfold step. destruct t as [|[|i]].
-  - destruct (step_sched s) as [[a b]|]; [|discriminate]. intros E. injection E as <- _ <-. left. auto.
-  - destruct (step_user s) as [[a b]|]; [|discriminate]. intros E. injection E as <- _ <-. right. left. auto.
-  - destruct (step_pool s i) as [[a b]|]; [|discriminate]. intros E. injection E as <- _ <-. right. right. exists i. auto.
+  - destruct (step_sched s) as [[a b]|]; [|discriminate]. intros E. inversion E; subst. left. split; reflexivity.
+  - destruct (step_user s) as [[a b]|]; [|discriminate]. intros E. inversion E; subst. right. left. split; reflexivity.
+  - destruct (step_pool s i) as [[a b]|] eqn:Q; [|discriminate]. intros E. inversion E; subst. right. right. exists i. split; [reflexivity | exact Q].
 Qed.
 
 (* the user thread's "next operation" helper *)
@@ -85,3 +85,542 @@ Proof.
   destruct (unext_up s x gh) as [->|[o ->]]; [intros [H|H]; discriminate|].
   destruct (uentry_not_spin o) as [A B]. intros [H|H]; contradiction.
 Qed.
+
+Local Arguments Z.add : simpl never.
+Local Arguments Z.sub : simpl never.
+Local Arguments Z.mul : simpl never.
+Local Arguments Z.pow : simpl never.
+Local Arguments wrap : simpl never.
+
+Lemma pow32_lt_64 : 2 ^ 32 < 2 ^ 64.
+Proof. reflexivity. Qed.
+Lemma pow32_val : 2 ^ 32 = 4294967296.
+Proof. reflexivity. Qed.
+Lemma pow64_val : 2 ^ 64 = 18446744073709551616.
+Proof. reflexivity. Qed.
+
+(* ---------- the main invariant ---------- *)
+Section Main.
+  Variable N : Z.                      (* timesToRun given at creation *)
+  Hypothesis HN : 0 <= N < 2 ^ 32.
+
+  Record Inv (s : state) : Prop := mkInv {
+    i_tk : 0 <= tickets (g s) <= N;
+    i_ttr : sdone (sp s) = false -> 0 <= ttr (m s) /\ ttr (m s) + tickets (g s) <= N;
+    i_zero : zeroed (g s) = true -> sdone (sp s) = true \/ ttr (m s) = 0;
+    i_q : 0 <= q (m s);
+    i_st : 0 <= starts (g s);
+    (* every ticket is in one place: held by the scheduler role, queued, inside a wrapper, or retired *)
+    i_pipe : q (m s) + cnt inwrap (pool s) + hold (sp s) <= tickets (g s);
+    i_pre : starts (g s) + q (m s) + cnt prewrap (pool s) + hold (sp s) <= tickets (g s);
+    (* inProgress counts exactly the wrappers handed over and not finished *)
+    i_inp : inprog (m s) = q (m s) + cnt inwrap (pool s) + insched (sp s);
+    i_uor : forall d, up s = UCancelOr d -> zeroed (g s) = true;
+    i_udt : up s = UDtorSpin \/ up s = UDtorClear -> zeroed (g s) = true /\ fcanc (m s) = true;
+    i_cret : cancel_ret (g s) = true -> zeroed (g s) = true /\ fcanc (m s) = true;
+    i_dret : dtor_ret (g s) = true -> zeroed (g s) = true /\ fcanc (m s) = true }.
+
+  Lemma init_inv npool rs prog : Inv (init N npool rs prog).
+  Proof.
+    constructor; cbn; try lia; try (intros; discriminate).
+    - rewrite cnt_repeat_start by reflexivity. lia.
+    - rewrite cnt_repeat_start by reflexivity. lia.
+    - rewrite cnt_repeat_start by reflexivity. lia.
+    - intros [H|H]; discriminate.
+  Qed.
+
+  Ltac bounds := pose proof pow32_val; pose proof pow64_val.
+
+  Lemma inv_sched s s' site : Inv s -> step_sched s = Some (s', site) -> Inv s'.
+  Proof.
+    intros I E. destruct I as [Itk Ittr Izero Iq Ist Ipipe Ipre Iinp Iuor Iudt Icret Idret].
+    unfold step_sched in E. destruct (sp s) eqn:P; cbn in Ittr, Izero, Ipipe, Ipre, Iinp.
+    - (* SStart *) injection E as <- <-. constructor; cbn; auto; try lia.
+    - (* SPick *) injection E as <- <-. constructor; cbn; auto; try lia.
+    - (* SKickSub *)
+      destruct (Ittr eq_refl) as [T0 T1].
+      destruct (ttr (m s) =? 0) eqn:R; injection E as <- <-.
+      + constructor; cbn; auto; try lia; try discriminate.
+      + apply Z.eqb_neq in R. bounds.
+        assert (W : wrap 64 (ttr (m s) - 1) = ttr (m s) - 1) by (apply wrap_small; lia).
+        constructor; cbn; auto; try lia.
+        intros Hz. destruct (Izero Hz) as [Hd|Hd]; [discriminate | lia].
+    - (* SCall *)
+      destruct (alive (m s)); injection E as <- <-; constructor; cbn; auto; try lia; try discriminate.
+    - (* SFuncFlags *)
+      destruct (fcanc (m s)) eqn:C; injection E as <- <-.
+      + destruct last; constructor; cbn; auto; try lia; try discriminate; try (intuition congruence).
+      + constructor; cbn; auto; try lia; try (intuition congruence).
+    - (* SFuncInc *) injection E as <- <-. bounds.
+      assert (Q0 := cnt_nonneg inwrap (pool s)).
+      assert (W : wrap 32 (inprog (m s) + 1) = inprog (m s) + 1) by (apply wrap_small; lia).
+      constructor; cbn; auto; try lia.
+    - (* SFuncSched *) injection E as <- <-.
+      destruct last; constructor; cbn; auto; try lia; try discriminate.
+    - discriminate.
+  Qed.
+
+  Ltac unx := rewrite ?unext_m, ?unext_g, ?unext_sp, ?unext_pool.
+  Ltac upx := first [ solve [intros ? Hx; exfalso; exact (unext_up_not_or _ _ _ _ Hx)]
+                    | solve [intros Hx; exfalso; exact (unext_up_not_spin _ _ _ Hx)] ].
+
+  Lemma inv_user s s' site : Inv s -> step_user s = Some (s', site) -> Inv s'.
+  Proof.
+    intros I E. destruct I as [Itk Ittr Izero Iq Ist Ipipe Ipre Iinp Iuor Iudt Icret Idret].
+    unfold step_user in E. destruct (up s) eqn:P.
+    - (* UStart *) injection E as <- <-. constructor; unx; auto; upx.
+    - (* UCancelStore *) injection E as <- <-. constructor; cbn; auto; try lia.
+      + intros [H|H]; discriminate.
+      + intros H. split; [reflexivity | apply Icret; exact H].
+      + intros H. split; [reflexivity | apply Idret; exact H].
+    - (* UCancelOr *) pose proof (Iuor d eq_refl) as Zr. destruct d; injection E as <- <-.
+      + constructor; cbn; auto; try lia; try discriminate; intuition.
+      + constructor; unx; cbn; auto; try upx; intuition.
+    - (* UDetachOr *) injection E as <- <-. constructor; unx; cbn; auto; upx.
+    - (* UCallsLoad *) injection E as <- <-. constructor; unx; cbn; auto; upx.
+    - (* UDtorFlags *) destruct (fdet (m s)); injection E as <- <-; constructor; cbn; auto; try discriminate;
+        try (intros [H|H]; discriminate).
+    - (* UDtorSpin *) destruct (inprog (m s) =? 0); injection E as <- <-; constructor; cbn; auto; try discriminate.
+    - (* UDtorClear *) injection E as <- <-. constructor; cbn; auto; try discriminate.
+    - discriminate.
+  Qed.
+
+  Lemma inv_pool s i s' site : Inv s -> step_pool s i = Some (s', site) -> Inv s'.
+  Proof.
+    intros I E. destruct I as [Itk Ittr Izero Iq Ist Ipipe Ipre Iinp Iuor Iudt Icret Idret].
+    unfold step_pool in E. destruct (nth_error (pool s) i) as [p|] eqn:Hn; [|discriminate].
+    pose proof (cnt_set_nth inwrap _ _ _ WPoll Hn) as Cw. pose proof (cnt_set_nth prewrap _ _ _ WPoll Hn) as Cp.
+    pose proof (cnt_nonneg inwrap (pool s)) as Nw. pose proof (cnt_nonneg prewrap (pool s)) as Np.
+    clear Cw Cp.
+    destruct p.
+    - (* WStart *) injection E as <- <-.
+      constructor; cbn; rewrite ?(cnt_set_nth _ _ _ _ _ Hn); cbn; auto; try lia.
+    - (* WPoll *)
+      destruct (0 <? q (m s)) eqn:Q.
+      + apply Z.ltb_lt in Q. injection E as <- <-.
+        constructor; cbn; rewrite ?(cnt_set_nth _ _ _ _ _ Hn); cbn; auto; try lia.
+      + destruct (sdone (sp s)) eqn:D; injection E as <- <-;
+          constructor; cbn; rewrite ?(cnt_set_nth _ _ _ _ _ Hn); cbn; auto; try lia; try (intuition congruence).
+    - (* WFlags *)
+      destruct (fcanc (m s)) eqn:C; injection E as <- <-;
+        constructor; cbn; rewrite ?(cnt_set_nth _ _ _ _ _ Hn); cbn; auto; try lia; try (intuition congruence).
+    - (* WCall *)
+      injection E as <- <-.
+      destruct (hd true (rets (m s)));
+        constructor; cbn; rewrite ?(cnt_set_nth _ _ _ _ _ Hn); cbn; auto; try lia.
+    - (* WStore0 *) injection E as <- <-.
+      constructor; cbn; rewrite ?(cnt_set_nth _ _ _ _ _ Hn); cbn; auto; try lia; try (intuition congruence).
+    - (* WOr *) injection E as <- <-.
+      constructor; cbn; rewrite ?(cnt_set_nth _ _ _ _ _ Hn); cbn; auto; try lia; try (intuition congruence).
+    - (* WClear *) injection E as <- <-.
+      constructor; cbn; rewrite ?(cnt_set_nth _ _ _ _ _ Hn); cbn; auto; try lia.
+    - (* WCount *) injection E as <- <-.
+      constructor; cbn; rewrite ?(cnt_set_nth _ _ _ _ _ Hn); cbn; auto; try lia.
+    - (* WDec *) injection E as <- <-.
+      pose proof (cnt_pos_nth inwrap _ _ _ Hn eq_refl) as Pos.
+      pose proof pow32_val as P32.
+      assert (Hh : 0 <= insched (sp s) <= hold (sp s)) by (destruct (sp s); cbn; lia).
+      assert (W : wrap 32 (inprog (m s) - 1) = inprog (m s) - 1) by (apply wrap_small; lia).
+      constructor; cbn; rewrite ?(cnt_set_nth _ _ _ _ _ Hn); cbn; auto; try lia.
+    - discriminate.
+  Qed.
+
+  Lemma step_inv s t ch s' ch' site : Inv s -> step s t ch = Some (s', ch', site) -> Inv s'.
+  Proof.
+    intros I E. destruct (step_shape _ _ _ _ _ _ E) as [[_ E1]|[[_ E1]|[i [_ E1]]]].
+    - eapply inv_sched; eauto.
+    - eapply inv_user; eauto.
+    - eapply inv_pool; eauto.
+  Qed.
+
+  Lemma reach_Inv s0 s : Inv s0 -> reach step s0 s -> Inv s.
+  Proof.
+    intros I0 R. apply (reach_inv step Inv s0); [exact I0 | | exact R].
+    intros s1 t ch s1' ch' site I E. eapply step_inv; eauto.
+  Qed.
+
+  Lemma reachable_Inv npool rs prog s : reach step (init N npool rs prog) s -> Inv s.
+  Proof. apply reach_Inv, init_inv. Qed.
+
+  (* ---------- (1) run count ---------- *)
+  Lemma hold_nonneg p : 0 <= hold p.
+  Proof. destruct p; cbn; lia. Qed.
+  Lemma insched_nonneg p : 0 <= insched p.
+  Proof. destruct p; cbn; lia. Qed.
+
+  Theorem at_most_timesToRun npool rs prog s :
+    reach step (init N npool rs prog) s -> 0 <= starts (g s) <= tickets (g s) /\ tickets (g s) <= N.
+  Proof.
+    intros R. destruct (reachable_Inv _ _ _ _ R) as [Itk _ _ Iq Ist _ Ipre _ _ _ _ _].
+    pose proof (cnt_nonneg prewrap (pool s)). pose proof (hold_nonneg (sp s)). lia.
+  Qed.
+
+  Ltac ifs E := repeat match type of E with context [if ?c then _ else _] => let H := fresh "C" in destruct c eqn:H end.
+
+  (* once some store of 0 to timesToRun has executed, fetch_sub never hands out another ticket *)
+  Lemma zeroed_step s t ch s' ch' site :
+    Inv s -> zeroed (g s) = true -> step s t ch = Some (s', ch', site) ->
+    zeroed (g s') = true /\ tickets (g s') = tickets (g s).
+  Proof.
+    intros I Hz E. destruct (step_shape _ _ _ _ _ _ E) as [[_ E1]|[[_ E1]|[i [_ E1]]]]; clear E.
+    - unfold step_sched in E1. destruct (sp s) eqn:P; ifs E1; try discriminate; injection E1 as <- <-; cbn; auto.
+      exfalso. destruct (i_zero _ I Hz) as [D|D]; [rewrite P in D; discriminate|].
+      rewrite D in C. discriminate.
+    - unfold step_user in E1. destruct (up s) eqn:P; ifs E1; try discriminate; injection E1 as <- <-;
+        rewrite ?unext_g; cbn; auto.
+    - unfold step_pool in E1. destruct (nth_error (pool s) i) as [p|] eqn:Hn; [|discriminate].
+      destruct p; ifs E1; try discriminate; injection E1 as <- <-; cbn; auto.
+  Qed.
+
+  Theorem no_ticket_after_zero_store npool rs prog s s' :
+    reach step (init N npool rs prog) s -> zeroed (g s) = true -> reach step s s' ->
+    tickets (g s') = tickets (g s) /\ starts (g s') <= tickets (g s).
+  Proof.
+    intros R Hz R'. pose proof (reachable_Inv _ _ _ _ R) as I.
+    assert (J : Inv s' /\ zeroed (g s') = true /\ tickets (g s') = tickets (g s)).
+    { apply (reach_inv step (fun x => Inv x /\ zeroed (g x) = true /\ tickets (g x) = tickets (g s)) s); [auto | | exact R'].
+      intros s1 t ch s1' ch' site (I1 & Z1 & T1) E. split; [eapply step_inv; eauto|].
+      destruct (zeroed_step _ _ _ _ _ _ I1 Z1 E) as [Z2 T2]. split; [exact Z2 | lia]. }
+    destruct J as (I' & _ & T). split; [exact T|].
+    destruct I' as [_ _ _ Iq _ _ Ipre _ _ _ _ _].
+    pose proof (cnt_nonneg prewrap (pool s')). pose proof (hold_nonneg (sp s')). lia.
+  Qed.
+
+  (* ---------- (3) after the cancelled bit is set only wrappers between their flag load and f() can still start ---------- *)
+  Lemma cancelled_step s t ch s' ch' site :
+    fcanc (m s) = true -> step s t ch = Some (s', ch', site) ->
+    fcanc (m s') = true /\ starts (g s) <= starts (g s') /\
+    starts (g s') + cnt atcall (pool s') <= starts (g s) + cnt atcall (pool s).
+  Proof.
+    intros Hc E. destruct (step_shape _ _ _ _ _ _ E) as [[_ E1]|[[_ E1]|[i [_ E1]]]]; clear E.
+    - unfold step_sched in E1. destruct (sp s) eqn:P; ifs E1; try discriminate; injection E1 as <- <-; cbn; repeat split; auto; try lia.
+    - unfold step_user in E1. destruct (up s) eqn:P; ifs E1; try discriminate; injection E1 as <- <-;
+        rewrite ?unext_g, ?unext_m, ?unext_pool; cbn; repeat split; auto; try lia.
+    - unfold step_pool in E1. destruct (nth_error (pool s) i) as [p|] eqn:Hn; [|discriminate].
+      destruct p; ifs E1; try discriminate; try congruence; injection E1 as <- <-; cbn;
+        rewrite ?(cnt_set_nth _ _ _ _ _ Hn); cbn; repeat split; auto; try lia.
+  Qed.
+
+  Theorem starts_bounded_after_cancelled s s' :
+    fcanc (m s) = true -> reach step s s' ->
+    starts (g s) <= starts (g s') <= starts (g s) + cnt atcall (pool s).
+  Proof.
+    intros Hc R.
+    assert (J : fcanc (m s') = true /\ starts (g s) <= starts (g s') /\
+                starts (g s') + cnt atcall (pool s') <= starts (g s) + cnt atcall (pool s)).
+    { apply (reach_inv step (fun x => fcanc (m x) = true /\ starts (g s) <= starts (g x) /\
+                                      starts (g x) + cnt atcall (pool x) <= starts (g s) + cnt atcall (pool s)) s);
+        [repeat split; auto; lia | | exact R].
+      intros s1 t ch s1' ch' site (C1 & A1 & B1) E.
+      destruct (cancelled_step _ _ _ _ _ _ C1 E) as (C2 & A2 & B2). repeat split; auto; lia. }
+    destruct J as (_ & A & B). pose proof (cnt_nonneg atcall (pool s')). lia.
+  Qed.
+
+  (* ---------- (4) teardown: a quiet state stays quiet and nothing touches the closure any more ---------- *)
+  Definition quiet (s : state) : Prop :=
+    fcanc (m s) = true /\ zeroed (g s) = true /\ inprog (m s) = 0 /\ hold (sp s) = 0.
+
+  (* what "touching the functor" means: closure accesses (incl. starting f) and calls of the emptied func *)
+  Definition touches (s : state) : Z * Z * Z := (acc (g s), starts (g s), badcall (g s)).
+
+  Lemma quiet_step s t ch s' ch' site :
+    Inv s -> quiet s -> step s t ch = Some (s', ch', site) -> quiet s' /\ touches s' = touches s.
+  Proof.
+    intros I (Hc & Hz & Hi & Hh) E.
+    pose proof (i_inp _ I) as Iinp. pose proof (i_q _ I) as Iq.
+    pose proof (cnt_nonneg inwrap (pool s)) as Nw. pose proof (insched_nonneg (sp s)) as Ns.
+    assert (Q0 : q (m s) = 0) by lia. assert (W0 : cnt inwrap (pool s) = 0) by lia.
+    unfold quiet, touches.
+    destruct (step_shape _ _ _ _ _ _ E) as [[_ E1]|[[_ E1]|[i [_ E1]]]]; clear E.
+    - unfold step_sched in E1. destruct (sp s) eqn:P; cbn in Hh; try discriminate; try lia;
+        ifs E1; try discriminate; injection E1 as <- <-; cbn; repeat split; auto.
+      exfalso. destruct (i_zero _ I Hz) as [D|D]; [rewrite P in D; discriminate|].
+      rewrite D in C. discriminate.
+    - unfold step_user in E1. destruct (up s) eqn:P; ifs E1; try discriminate; injection E1 as <- <-;
+        rewrite ?unext_g, ?unext_m, ?unext_sp; cbn; repeat split; auto.
+    - unfold step_pool in E1. destruct (nth_error (pool s) i) as [p|] eqn:Hn; [|discriminate].
+      pose proof (cnt_zero_nth _ _ _ _ W0 Hn) as F.
+      destruct p; cbn in F; try discriminate; ifs E1; try discriminate; try (rewrite Q0 in *; discriminate);
+        injection E1 as <- <-; cbn; repeat split; auto.
+  Qed.
+
+  Lemma quiet_reach s s' : Inv s -> quiet s -> reach step s s' -> quiet s' /\ touches s' = touches s.
+  Proof.
+    intros I Q R.
+    assert (J : Inv s' /\ quiet s' /\ touches s' = touches s).
+    { apply (reach_inv step (fun x => Inv x /\ quiet x /\ touches x = touches s) s); [auto | | exact R].
+      intros s1 t ch s1' ch' site (I1 & Q1 & T1) E. split; [eapply step_inv; eauto|].
+      destruct (quiet_step _ _ _ _ _ _ I1 Q1 E) as [Q2 T2]. split; [exact Q2 | congruence]. }
+    tauto.
+  Qed.
+
+  (* The destructor's successful inProgress load (state s: user at the spin, inProgress == 0) with the scheduler role
+     NOT holding a ticket: from then on no closure access, no invocation, no call of the emptied func, ever. *)
+  Theorem dtor_quiescent_except npool rs prog s s' :
+    reach step (init N npool rs prog) s ->
+    up s = UDtorSpin -> inprog (m s) = 0 -> hold (sp s) = 0 ->
+    reach step s s' -> touches s' = touches s.
+  Proof.
+    intros R U Hi Hh R'. pose proof (reachable_Inv _ _ _ _ R) as I.
+    destruct (i_udt _ I (or_introl U)) as [Hz Hc].
+    apply (quiet_reach s s' I); [repeat split; assumption | exact R'].
+  Qed.
+End Main.
+
+(* ---------- (2) the clock layer ---------- *)
+Lemma nonsched_step s t ch s' ch' site :
+  t <> 0%nat -> step s t ch = Some (s', ch', site) -> sp s' = sp s /\ tickets (g s') = tickets (g s).
+Proof.
+  intros Ht E. destruct (step_shape _ _ _ _ _ _ E) as [[T _]|[[_ E1]|[i [_ E1]]]]; [contradiction| |]; clear E.
+  - unfold step_user in E1. destruct (up s) eqn:P;
+      repeat match type of E1 with context [if ?c then _ else _] => destruct c end;
+      try discriminate; injection E1 as <- <-; rewrite ?unext_g, ?unext_sp; cbn; auto.
+  - unfold step_pool in E1. destruct (nth_error (pool s) i) as [p|] eqn:Hn; [|discriminate].
+    destruct p; repeat match type of E1 with context [if ?c then _ else _] => destruct c end;
+      try discriminate; injection E1 as <- <-; cbn; auto.
+Qed.
+
+Lemma cstep_base eps period steady s t s' :
+  cstep eps period steady s (Thr t) = Some s' -> exists ch' site, step (base s) t [] = Some (base s', ch', site).
+Proof.
+  unfold cstep. destruct (step (base s) t []) as [[[b' ch'] site]|] eqn:Hs; [|discriminate].
+  intros E. exists ch', site.
+  destruct t as [|t'].
+  - destruct (is_pick (sp (base s))).
+    + destruct (nextAbs s - now s <? eps); [|discriminate]. injection E as <-. reflexivity.
+    + destruct (is_requeue (sp (base s)) (sp b')); injection E as <-; reflexivity.
+  - destruct (at_call (base s) (S t')); injection E as <-; reflexivity.
+Qed.
+
+Section Clock.
+  Variables (eps period : Z) (steady : bool) (N first : Z) (npool : nat) (rs : list bool) (prog : list uop).
+  Hypothesis HN : 0 <= N < 2 ^ 32.
+
+  Definition CInv (s : cstate) : Prop :=
+    reach step (init N npool rs prog) (base s) /\
+    match tfirst s with
+    | None => (sp (base s) = SStart \/ sp (base s) = SPick) /\ tickets (g (base s)) = 0 /\ nextAbs s = first /\ tlog s = []
+    | Some t0 => first - eps < t0 /\ t0 <= now s /\ Forall (fun t => t0 <= t) (tlog s)
+    end.
+
+  Lemma at_call_tickets s t : Inv N s -> at_call s t = true -> 1 <= tickets (g s).
+  Proof.
+    intros I A. destruct t as [|[|i]]; cbn in A; try discriminate.
+    destruct (nth_error (pool s) i) as [p|] eqn:Hn; [|discriminate]. destruct p; try discriminate.
+    pose proof (cnt_pos_nth prewrap _ _ _ Hn eq_refl) as Pos.
+    destruct I as [_ _ _ Iq Ist _ Ipre _ _ _ _ _]. pose proof (hold_nonneg (sp s)). lia.
+  Qed.
+
+  Lemma cstep_inv s e s' : CInv s -> cstep eps period steady s e = Some s' -> CInv s'.
+  Proof.
+    intros [R C] E. unfold cstep in E. destruct e as [d|t].
+    - destruct (0 <=? d) eqn:D; [|discriminate]. apply Z.leb_le in D. injection E as <-. split; [exact R|]. cbn.
+      destruct (tfirst s) as [t0|]; [|exact C]. destruct C as (A & B & F). repeat split; auto; lia.
+    - destruct (step (base s) t []) as [[[b' ch'] site]|] eqn:Hs; [|discriminate].
+      assert (R' : reach step (init N npool rs prog) b') by (eapply reach_step; eauto).
+      destruct t as [|t'].
+      + destruct (is_pick (sp (base s))) eqn:Pk.
+        * destruct (nextAbs s - now s <? eps) eqn:G; [|discriminate]. apply Z.ltb_lt in G. injection E as <-.
+          split; [exact R'|]. cbn. destruct (tfirst s) as [t0|]; [exact C|].
+          destruct C as (_ & _ & Nx & L). rewrite L. repeat split; [lia | lia | constructor].
+        * assert (Keep : tfirst s = None -> (sp b' = SStart \/ sp b' = SPick) /\ tickets (g b') = 0 /\
+                                            is_requeue (sp (base s)) (sp b') = false).
+          { intros Tn. rewrite Tn in C. destruct C as ([Sp|Sp] & Tk & _ & _); [|rewrite Sp in Pk; discriminate].
+            unfold step, step_sched in Hs. rewrite Sp in Hs. injection Hs as <- _ _. cbn. rewrite Sp. auto. }
+          destruct (is_requeue (sp (base s)) (sp b')) eqn:Rq; injection E as <-; (split; [exact R'|]); cbn;
+            destruct (tfirst s) as [t0|]; try exact C.
+          -- destruct (Keep eq_refl) as (_ & _ & X). discriminate.
+          -- destruct (Keep eq_refl) as (A & B & _). destruct C as (_ & _ & Nx & L). auto.
+      + destruct (nonsched_step _ _ _ _ _ _ (Nat.neq_succ_0 t') Hs) as [Sp Tk].
+        destruct (at_call (base s) (S t')) eqn:A; injection E as <-; (split; [exact R'|]); cbn;
+          destruct (tfirst s) as [t0|].
+        * destruct C as (X & Y & F). repeat split; auto.
+        * exfalso. destruct C as (_ & T0 & _ & _).
+          pose proof (at_call_tickets _ _ (reachable_Inv N HN _ _ _ _ R) A). lia.
+        * exact C.
+        * rewrite Sp, Tk. exact C.
+  Qed.
+
+  Lemma crun_inv evs : forall s s', CInv s -> crun eps period steady s evs = Some s' -> CInv s'.
+  Proof.
+    induction evs as [|e r IH]; intros s s' I E; cbn in E; [injection E as <-; exact I|].
+    destruct (cstep eps period steady s e) as [s1|] eqn:Hs; [|discriminate].
+    eapply IH; [eapply cstep_inv; eauto | exact E].
+  Qed.
+
+  (* no invocation starts before the first scheduled time minus eps (= kSmallTimeBuffer) *)
+  Theorem not_before_first_time_minus_eps t0 evs s :
+    crun eps period steady (cinit t0 first N npool rs prog) evs = Some s ->
+    Forall (fun t => first - eps < t) (tlog s).
+  Proof.
+    intros E. assert (I0 : CInv (cinit t0 first N npool rs prog)).
+    { split; [apply reach_refl|]. cbn. auto. }
+    destruct (crun_inv _ _ _ I0 E) as [_ C]. destruct (tfirst s) as [tf|].
+    - destruct C as (A & _ & F). rewrite Forall_forall in *. intros t Ht. specialize (F t Ht). lia.
+    - destruct C as (_ & _ & _ & L). rewrite L. constructor.
+  Qed.
+
+  (* the clocked system is a restriction of the untimed one validated by the lockstep tie *)
+  Theorem clocked_refines_untimed s t s' :
+    cstep eps period steady s (Thr t) = Some s' -> exists ch' site, step (base s) t [] = Some (base s', ch', site).
+  Proof. apply cstep_base. Qed.
+End Clock.
+
+(* ---------- domain predicates of the findings (Gallina booleans on the state) ---------- *)
+Definition wrapper_in_window (s : state) : bool := existsb atcall (pool s).      (* some wrapper is between its flag load and f() *)
+Definition holds_ticket (p : spc) : bool :=                                       (* the scheduler role is between a fetch_sub >= 1 and the end of func *)
+  match p with SCall _ | SFuncFlags _ | SFuncInc _ | SFuncSched _ => true | _ => false end.
+
+Lemma existsb_cnt f l : existsb f l = false -> cnt f l = 0.
+Proof.
+  induction l as [|p r IH]; cbn; [reflexivity|]. intros H. apply orb_false_iff in H. destruct H as [A B].
+  rewrite A, (IH B). reflexivity.
+Qed.
+Lemma holds_ticket_hold p : holds_ticket p = false -> hold p = 0.
+Proof. destruct p; cbn; intros; try discriminate; reflexivity. Qed.
+
+Theorem no_start_after_cancel_except N npool rs prog s s' :
+  0 <= N < 2 ^ 32 -> reach step (init N npool rs prog) s ->
+  cancel_ret (g s) = true -> wrapper_in_window s = false -> reach step s s' -> starts (g s') = starts (g s).
+Proof.
+  intros HN R Hc Hw R'. pose proof (reachable_Inv N HN _ _ _ _ R) as I.
+  destruct (i_cret _ _ I Hc) as [_ Fc].
+  pose proof (starts_bounded_after_cancelled _ _ Fc R') as B. rewrite (existsb_cnt _ _ Hw) in B. lia.
+Qed.
+
+Theorem no_start_after_false_except s s' :
+  false_ret (g s) = true -> fcanc (m s) = true -> wrapper_in_window s = false -> reach step s s' ->
+  starts (g s') = starts (g s).
+Proof.
+  intros _ Fc Hw R'. pose proof (starts_bounded_after_cancelled _ _ Fc R') as B. rewrite (existsb_cnt _ _ Hw) in B. lia.
+Qed.
+
+(* ---------- refutation witnesses (schedules replayed on the real code by props/C26.py) ---------- *)
+Definition run_from (fuel : nat) (s : state) (sched : list Z) : state := fst (fst (run step cands finished fuel s sched [])).
+Lemma run_from_reach fuel s sched : reach step s (run_from fuel s sched).
+Proof. unfold run_from. apply run_reach. apply reach_refl. Qed.
+
+(* destructor: timesToRun = 1, one pool thread, the user only destroys the handle *)
+Definition wd_init := init 1 1 [] [UDtor].
+Definition wd_sched1 : list Z := [0;0;0;0;0; 1;1;1;1;1;1].     (* scheduler up to func's cancelled-check, then the whole destructor *)
+Definition wd_sched2 : list Z := [0;0; 0;0;0;0;0].             (* scheduler: inProgress++, schedule(wrap); then the pool thread *)
+Definition wd_s := run_from 11 wd_init wd_sched1.
+Definition wd_s' := run_from 7 wd_s wd_sched2.
+Lemma wd_facts :
+  dtor_ret (g wd_s) = true /\ up wd_s = UDone /\ sp wd_s = SFuncInc true /\ alive (m wd_s) = false /\
+  acc (g wd_s') = acc (g wd_s) + 2 /\ uaf (g wd_s') = 2 /\ late_acc (g wd_s') = 2 /\ finished wd_s' = true.
+Proof. vm_compute. repeat split; reflexivity. Qed.
+
+(* cancel: timesToRun = 1, one pool thread, the user calls cancel() *)
+Definition wc_init := init 1 1 [] [UCancel].
+Definition wc_sched1 : list Z := [0;0;0;0;0;0;0; 1;1;1; 0;0;0].  (* kick-off; wrapper up to its flag load; cancel() *)
+Definition wc_sched2 : list Z := [0;0;0;0].                       (* the wrapper calls f *)
+Definition wc_s := run_from 13 wc_init wc_sched1.
+Definition wc_s' := run_from 4 wc_s wc_sched2.
+Lemma wc_facts :
+  cancel_ret (g wc_s) = true /\ up wc_s = UDone /\ wrapper_in_window wc_s = true /\ starts (g wc_s) = 0 /\
+  starts (g wc_s') = 1 /\ late_start (g wc_s') = 1 /\ finished wc_s' = true.
+Proof. vm_compute. repeat split; reflexivity. Qed.
+
+(* false return: timesToRun = 2, two pool threads, the first invocation returns false *)
+Definition wf_init := init 2 2 [false] [].
+Definition wf_sched1 : list Z := [1; 0;0;0;0;0;0;0;0;0;0;0;0;0; 0;0;0; 1;1;1; 0].  (* both wrappers past their flag load; the first returns false *)
+Definition wf_sched2 : list Z := [1].                                               (* the second starts f *)
+Definition wf_sched3 : list Z := [1; 0;0;0; 1].   (* alternative continuation: the first wrapper stores 0, sets the bit, clears func; then the second calls f *)
+Definition wf_s := run_from 21 wf_init wf_sched1.
+Definition wf_s' := run_from 1 wf_s wf_sched2.
+Lemma wf_facts :
+  false_ret (g wf_s) = true /\ starts (g wf_s) = 1 /\ wrapper_in_window wf_s = true /\
+  starts (g wf_s') = 2 /\ late_false (g wf_s') = 1.
+Proof. vm_compute. repeat split; reflexivity. Qed.
+
+(* observations beyond the property text: the wrapper's func = {} after a false return frees the functor that another
+   wrapper then calls; and the scheduler role can call the emptied func (std::bad_function_call on its thread) *)
+Definition wo_sched : list Z := [1; 0;0;0;0;0;0;0;0;0;0;0;0;0; 0;0;0; 1;1;1; 0; 0;0;0; 1].
+Definition wo_s := run_from 25 wf_init wo_sched.
+Lemma wo_facts : dtor_ret (g wo_s) = false /\ alive (m wo_s) = false /\ uaf (g wo_s) = 1 /\ starts (g wo_s) = 2.
+Proof. vm_compute. repeat split; reflexivity. Qed.
+
+Definition wb_init := init 1 1 [] [UDtor].
+Definition wb_sched : list Z := [0;0;0; 1;1;1;1;1;1; 0].     (* fetch_sub takes the ticket; the whole destructor; then func(...) on the emptied func *)
+Definition wb_s := run_from 10 wb_init wb_sched.
+Lemma wb_facts : dtor_ret (g wb_s) = true /\ badcall (g wb_s) = 1 /\ late_acc (g wb_s) = 1 /\ sp wb_s = SEnd.
+Proof. vm_compute. repeat split; reflexivity. Qed.
+
+Lemma refuted_dtor :
+  exists s s', reach step (init 1 1 [] [UDtor]) s /\ dtor_ret (g s) = true /\ up s = UDone /\
+               reach step s s' /\ acc (g s) < acc (g s') /\ 0 < uaf (g s').
+Proof.
+  exists wd_s, wd_s'. destruct wd_facts as (A & B & _ & _ & C & D & _ & _).
+  split; [apply run_from_reach|]. split; [exact A|]. split; [exact B|]. split; [apply run_from_reach|]. split; lia.
+Qed.
+
+Lemma refuted_cancel :
+  exists s s', reach step (init 1 1 [] [UCancel]) s /\ cancel_ret (g s) = true /\ up s = UDone /\
+               reach step s s' /\ starts (g s) < starts (g s').
+Proof.
+  exists wc_s, wc_s'. destruct wc_facts as (A & B & _ & C & D & _ & _).
+  split; [apply run_from_reach|]. split; [exact A|]. split; [exact B|]. split; [apply run_from_reach|]. lia.
+Qed.
+
+Lemma refuted_false :
+  exists s s', reach step (init 2 2 [false] []) s /\ false_ret (g s) = true /\ reach step s s' /\ starts (g s) < starts (g s').
+Proof.
+  exists wf_s, wf_s'. destruct wf_facts as (A & B & _ & C & _).
+  split; [apply run_from_reach|]. split; [exact A|]. split; [apply run_from_reach|]. lia.
+Qed.
+
+Lemma observed_false_return_frees_functor_in_use :
+  exists s, reach step (init 2 2 [false] []) s /\ dtor_ret (g s) = false /\ cancel_ret (g s) = false /\ 0 < uaf (g s).
+Proof.
+  exists wo_s. destruct wo_facts as (A & _ & C & _).
+  split; [apply run_from_reach|]. split; [exact A|]. split; [vm_compute; reflexivity|]. lia.
+Qed.
+
+Lemma observed_bad_function_call :
+  exists s, reach step (init 1 1 [] [UDtor]) s /\ dtor_ret (g s) = true /\ 0 < badcall (g s).
+Proof.
+  exists wb_s. destruct wb_facts as (A & B & _ & _). split; [apply run_from_reach|]. split; [exact A|]. lia.
+Qed.
+
+(* non-vacuity run: 3 runs on 2 pool threads, the user reads calls() and destroys the handle after everything ran *)
+Definition nv_sched : list Z :=
+  [0;0;0;0;0;0;0;0;0;0;0;0;0;0;0;0;0;0;0; 1;1;1;1;1;1;1;1;1;1;1;1;1;1;1;1;1; 1;1; 0;0;0;0;0;0;0;0;0;0].
+Lemma nonvacuous_run :
+  let '(s, tr, st) := run_tt 60 3 2 [] [UCalls; UDtor] nv_sched in
+  st = SDone /\ starts (g s) = 3 /\ count (m s) = 3 /\ tickets (g s) = 3 /\ uaf (g s) = 0 /\ dtor_ret (g s) = true /\
+  ures s = [(r_calls, 3)].
+Proof. vm_compute. repeat split; reflexivity. Qed.
+
+Lemma dtor_quiescent_except_b N npool rs prog s s' :
+  0 <= N < 2 ^ 32 -> reach step (init N npool rs prog) s ->
+  up s = UDtorSpin -> inprog (m s) = 0 -> holds_ticket (sp s) = false ->
+  reach step s s' -> touches s' = touches s.
+Proof. intros HN R U Hi Hh R'. eapply dtor_quiescent_except; eauto. apply holds_ticket_hold. exact Hh. Qed.
+
+Lemma inprogress_exact N npool rs prog s :
+  0 <= N < 2 ^ 32 -> reach step (init N npool rs prog) s ->
+  inprog (m s) = q (m s) + cnt inwrap (pool s) + insched (sp s).
+Proof. intros HN R. exact (i_inp _ _ (reachable_Inv N HN _ _ _ _ R)). Qed.
+
+Lemma full_statement_false :
+  ~ (forall N npool rs prog s, 0 <= N < 2 ^ 32 -> reach step (init N npool rs prog) s ->
+       starts (g s) <= N /\
+       forall s', reach step s s' ->
+         (false_ret (g s) = true -> starts (g s') = starts (g s)) /\
+         (cancel_ret (g s) = true -> starts (g s') = starts (g s)) /\
+         (dtor_ret (g s) = true -> touches s' = touches s)).
+Proof.
+  intros F. destruct refuted_cancel as (s & s' & R & C & _ & R' & L).
+  assert (HN : 0 <= 1 < 2 ^ 32) by (rewrite pow32_val; lia).
+  destruct (F 1 1%nat [] [UCancel] s HN R) as [_ G]. destruct (G s' R') as (_ & X & _). specialize (X C). lia.
+Qed.
+
+(* the eps in (b) is tight: a clocked run in which the single invocation starts at first - eps + 1 (first = 1 ms, eps = 10 us) *)
+Definition we_evs : list cev := [Thr 0; Thr 0; Thr 0; Thr 0; Thr 0; Thr 0; Thr 0; Thr 2; Thr 2; Thr 2; Thr 2].
+Lemma eps_early_possible :
+  match crun 10000 0 false (cinit 990001 1000000 1 1 [] []) we_evs with
+  | Some s => tlog s = [1000000 - 10000 + 1] /\ starts (g (base s)) = 1
+  | None => False
+  end.
+Proof. vm_compute. split; reflexivity. Qed.
